@@ -12,7 +12,8 @@
    Env: PARSERS, EXTRACT (see Options.tla), C03_PART / C03_PARTS (shape subset). *)
 EXTENDS Options, Integers
 
-CONSTANTS MaxLen, MaxLenCheap, InitAll
+CONSTANTS MaxLen, MaxLenCheap, InitAll,
+          KindLen     \* ErrorKindLaw (a Run per node) is evaluated for argv up to this length
 
 VARIABLES sid, argv, res, hres
 vars == <<sid, argv, res, hres>>
@@ -25,7 +26,8 @@ MCShapes == {s \in 1..NShapes : (s - 1) % Parts = Part /\ WellFormed(Shapes[s].p
 Alphabet(s) == {Shapes[s].alphabet[i] : i \in 1..Len(Shapes[s].alphabet)}
 Bound(s) == IF Shapes[s].cheap THEN MaxLenCheap ELSE MaxLen
 NoHelp == [ok |-> FALSE, help |-> FALSE, diverge |-> FALSE]
-HelpOf(s, a) == IF Shapes[s].help THEN ParseHelp(Shapes[s].p, a) ELSE NoHelp
+HelpSwitch(s) == [short |-> Shapes[s].hshort, long |-> Shapes[s].hlong]
+HelpOf(s, a) == IF Shapes[s].help THEN ParseHelp(Shapes[s].p, HelpSwitch(s), a) ELSE NoHelp
 
 Init ==
   /\ sid \in MCShapes
@@ -58,13 +60,20 @@ OptionValueNotPositional == OptionValueNotPositionalIn(res, argv) /\ OptionValue
 FlagNeverFails == FlagNeverFailsIn(Shapes[sid].p, argv)
 
 (* parse_help: without the help switch in argv it is parse; the help switch alone gives the usage *)
-HelpTok == FlagTok(HelpName, FALSE)
+HelpToks == {FlagTok(Shapes[sid].hlong, FALSE)} \cup {FlagTok(Shapes[sid].hshort[i], TRUE) : i \in 1..Len(Shapes[sid].hshort)}
 HelpLaw ==
   Shapes[sid].help =>
-    /\ (\A i \in 1..Len(argv) : Tokens[argv[i]] # HelpTok) =>
+    /\ (\A i \in 1..Len(argv) : Tokens[argv[i]] \notin HelpToks) =>
           /\ hres.ok = res.ok /\ ~hres.help
           /\ res.ok => hres.val = res.val
-    /\ (Len(argv) = 1 /\ Tokens[argv[1]] = HelpTok) => hres.ok /\ hres.help
+    /\ (Len(argv) = 1 /\ Tokens[argv[1]] \in HelpToks) => hres.ok /\ hres.help
+
+(* error kinds of every node (see Options.tla) *)
+ErrorKindLaw == Len(argv) <= KindLen => ErrorKindLawIn(Shapes[sid].p, argv)
+
+(* the structural requirements on usage() are met by the design's own renderer (per shape; the
+   usage text does not depend on argv) *)
+UsageModelOK == argv = <<>> => UsageReasons(UsageLines(Shapes[sid].p), Shapes[sid].p) = {}
 
 (* a success consumed everything: there is no shorter/longer vector hidden in it *)
 SuccessLeavesNothing == res.ok => Cardinality({u.idx : u \in res.used}) = Len(argv)
